@@ -61,6 +61,7 @@ def runs(ctx: Ctx):
         idents.append(rand_identity(rng, typ=rng.choice([0xAC, 0xAC, rng.randrange(256)])))
     rng.shuffle(idents)
     k = 0
+    seen = []          # (device id, address) pairs that answered earlier discoveries of this process
     while idents:
         n = rng.choice([1, 1, 2, 3, 4])
         group, idents = idents[:n], idents[n:]
@@ -68,6 +69,12 @@ def runs(ctx: Ctx):
         single = (len(group) == 1 and k % 3 == 0)
         for j, ident in enumerate(group):
             ip = ("10.%d.%d.%d" % (rng.randrange(256), rng.randrange(256), rng.randrange(1, 255))) if rng.random() < 0.5 else "10.1.1.%d" % (1 + (k + 5 * j) % 20)
+            if seen and rng.random() < 0.2 and not any(p[1] == seen[-1][1] for p in plan):
+                # a module seen before (same id, same address) answers again after re-provisioning / a firmware update: other port, name, serial, version
+                ident = dict(ident, devid=seen[-1][0])
+                ip = seen[-1][1]
+            seen.append((ident["devid"], ip))
+            seen = seen[-50:]
             ver = rng.choice([2, 3])
             rep = build(rng, ident, ip, ver, same_ip=rng.random() < 0.6)
             for c in range(rng.choice([1, 1, 2])):
